@@ -40,8 +40,8 @@ import (
 var (
 	rxPunctuation      = regexp.MustCompile(`\s+([.?!,;])\s*(\S*)`)
 	rxTempNewline      = regexp.MustCompile(`\s*\|\\/\|\s*`)
-	rxDisplay          = regexp.MustCompile(`(?i)display:\s*([\w-]+)\s*(?:;|$)`)
-	rxVisibilityHidden = regexp.MustCompile(`(?i)(?:^|[\s;])visibility:\s*(:?hidden|collapse)`)
+	rxDisplay          = regexp.MustCompile(`(?i)(?:^|[\s;])display\s*:\s*([\w-]+)\s*(?:!\s*important\s*)?(?:;|$)`)
+	rxVisibilityHidden = regexp.MustCompile(`(?i)(?:^|[\s;])visibility\s*:\s*(:?hidden|collapse)`)
 	rxSrcsetURL        = regexp.MustCompile(`(?i)(\S+)(\s+[\d.]+[xw])?(\s*(?:,|$))`)
 
 	elementWithSizeAttr = map[string]struct{}{
